@@ -1102,12 +1102,25 @@ fn ladder_chunk(sh: &Shape, helps: &[String], thorough: bool) -> Report {
             let mut t = vec![b'-'; 2];
             t.extend(std::iter::repeat(b'y').take(len - 2));
             toks.push(t);
-            // two-byte characters (and one odd byte): Debug/escape rendering changes the written length
-            let mut t: Vec<u8> = "é".as_bytes().iter().copied().cycle().take(len & !1).collect();
-            if len % 2 == 1 {
-                t.push(b'z');
+            // multi-byte characters at every phase: a 2-, 3- and 4-byte character repeated after a 0..3-byte ASCII
+            // prefix, padded with ASCII at the end - so for every byte offset some token has a character straddling
+            // it (byte-indexed truncation or splitting of the echoed argument must respect char boundaries), and
+            // Debug/escape rendering changes the written length
+            for ch in ["é", "€", "😀"] {
+                for shift in 0..ch.len() {
+                    if shift + ch.len() > len {
+                        continue;
+                    }
+                    let mut t: Vec<u8> = vec![b'p'; shift];
+                    while t.len() + ch.len() <= len {
+                        t.extend_from_slice(ch.as_bytes());
+                    }
+                    while t.len() < len {
+                        t.push(b'z');
+                    }
+                    toks.push(t);
+                }
             }
-            toks.push(t);
             toks.push(vec![0xff; len]);
         }
         for t in &toks {
